@@ -39,7 +39,7 @@ func VerifNew(proxy string, addr netip.AddrPort, result protocol.HandshakeResult
 }
 
 func (p *Peer) VerifHandleMessage(m protocol.Message) error { return handleMessage(p, m) }
-func (p *Peer) VerifHandleEvent(e PeerEvent) error         { return handleEvent(p, e) }
+func (p *Peer) VerifHandleEvent(e PeerEvent) error          { return handleEvent(p, e) }
 
 // VerifTick is the request-expiry part of Run's periodic tick.
 func (p *Peer) VerifTick() {
